@@ -7,6 +7,7 @@
 //	        member of another format at every position) x file names (every supported extension in
 //	        lower / upper / mixed case, none, unsupported) x detection entry points and terminal
 //	        operations of tabula.Open
+//	        + "inventory" packaging: entry order / attribute order of the XML inventories (inventory.go)
 //	replace same path, content replaced: ordered pairs of contents x file names, two opens on one
 //	        path inside one case (replace.go)
 //	drm     EPUBs x every subset of five manifest items listed in META-INF/encryption.xml x
@@ -56,11 +57,12 @@ func run(e *harness.Env) {
 		"{no decoy, one characteristic member of every other format (13 kinds) at every position, host inventory (content types / ODF manifest) updated} x " +
 		"{DetectFromReader, DetectFromMagic, Open(name).Text() under the 8 supported extensions + own extension upper/mixed case + no extension}; " +
 		"base packaging additionally x 29 names (8 extensions x lower/upper/mixed, none, 4 unsupported) x {Text, ToMarkdown, Document, PageCount}; names: format.Detect on 29 names x 4 stems x 5 directories. " +
+		"inventory: 7 packages x deciding inventory entry (ODF '/' file-entry, main-part Override, officeDocument Relationship, OPF item) asis/first/middle/last x attribute order asis/reversed x {no decoy, every decoy at first/last (thorough: every) position} x the same entry points. " +
 		"replace: every ordered pair (A,B) over {one document per format, plain text, absent file} x the 29 names: write A, open, overwrite with B, open again on ONE path; second verdict = statement verdict for B = verdict of B at an unused path. " +
 		"every other case works on a path that is unique in the process. " +
 		"drm: EPUB with 2 spine documents (one without file extension) + css + font + image, every assignment of {plain, obfuscated, encrypted} to the 5 items (3^5, includes all 2^5 subsets per algorithm) x " +
-		"obfuscation URI {IDPF, Adobe} x cipher URI {AES-128-CBC, AES-256-CBC, AES-256-GCM, unknown} x 5 CipherReference spellings x rights.xml x encryption.xml style x OPF location x entry order x META-INF position x {tabula.Open, epubdoc.OpenReader}. " +
-		"quick: decoys under every 10th member order + the reverse order, abs-root-target twins lightly, mixed obfuscated+encrypted assignments with one algorithm pair, 8 of 24 encryption.xml/OPF variants; thorough: everything. " +
+		"obfuscation URI {IDPF, Adobe} x cipher URI {AES-128-CBC, AES-256-CBC, AES-256-GCM, unknown} x 5 CipherReference spellings x rights.xml x encryption.xml style x OPF location x entry order x META-INF position x OPF manifest order x {tabula.Open, epubdoc.OpenReader}. " +
+		"quick: decoys under every 10th member order + the reverse order, abs-root-target twins lightly, mixed obfuscated+encrypted assignments with one algorithm pair, 8 of 24 encryption.xml/OPF variants; thorough: everything, except that the OPF manifest order alternates over the 24 encryption.xml/OPF variants instead of doubling them. " +
 		"distinct = distinct descriptors; non-trivial = anything but a base document under its own lower-case extension / an EPUB without encryption.xml"
 	e.Assumptions = []string{
 		"the writers of verif/internal/gen produce valid documents of their format (they are shared with C16-C18 and never consult tabula)",
@@ -72,6 +74,7 @@ func run(e *harness.Env) {
 	defer os.RemoveAll(scratchDir)
 	names(e)
 	admit(e)
+	inventorySpace(e)
 	replace(e)
 	drm(e)
 }
